@@ -2,7 +2,8 @@ import TxV.Model.WideFifo
 open TxV TxV.Proto TxV.WideFifo
 
 /-- protocol:
-    `cfg depth=6 rw=2 ww=3 max=1 dw=8` → `ok` (or `raise ValueError` / `raise ZeroDivisionError` as the constructor does)
+    `cfg depth=6 rw=2 ww=3 max=1 dw=8` → `ok` (or `raise ValueError` / `raise ZeroDivisionError` as the constructor does,
+    `raise AssertionError` as elaboration does for depth 0)
     `cyc r=2 p=1 w=3:3:1,2,3 c=0` (`r=-`/`w=-` = no call attempt; `w=count:max_count:data`) →
     `r=2:1,2 p=2:1,2 w=1 c=0 rdy=111 ri=0.0 wi=1.0`
     (`r`/`p` = returned `count:data` with all `read_width` data entries, `-` if not executed;
@@ -20,7 +21,7 @@ def parseW (c : Cfg) (dw : Nat) (v : String) : Option (Option WArg) :=
   | [a, b, d] =>
     match a.toNat?, b.toNat? with
     | some cnt, some mx =>
-      let parts := d.splitOn ","
+      let parts := if d == "-" then [] else d.splitOn ","
       let data := parts.filterMap String.toNat?
       if data.length == parts.length && data.length == c.ww && data.all (· < 2 ^ dw) then some (some ⟨cnt, mx, data⟩) else none
     | _, _ => none
@@ -48,6 +49,7 @@ def stepLine (d : DState) (line : String) : DState × String :=
       if mx > 1 then (d, "bad-op")
       else if c.cols == 0 then ({ d with ok := false }, "raise ZeroDivisionError")
       else if !c.valid then ({ d with ok := false }, "raise ValueError")
+      else if c.rows == 0 then ({ d with ok := false }, "raise AssertionError")   -- `mod_incr(…, 0)` at elaboration (fifo.py:291)
       else ({ cfg := c, dw := dw, ok := true, s := init c }, "ok")
     | _, _, _, _, _ => ({ d with ok := false }, "bad-op")
   | some "cyc" =>
